@@ -93,6 +93,9 @@ def stages(tier, rng, only=None):
                                 SCHEMES + ac.grid_sample(rng, 6), False), _nt_part, partrun.init, aux=aux),
            Stage("consistent", "Trace_Part", partrun.run_consistent, lambda: _pairs(3 if tier == "quick" else 4),
                  _nt_cons, partrun.init, aux=aux)]
+    out.append(Stage("transposed_pairs", "Trace_Part", partrun.run_partitions,
+                     lambda: [{"D": B, "prevD": A, "naming": "ints", "sch": list(SCHEMES[k % len(SCHEMES)])}
+                              for k, (A, B) in enumerate(ac.transposed_pairs())], _nt_part, partrun.init, aux=aux))
     out.append(Stage("consistent_repeated", "Trace_Part", partrun.run_consistent,
                      lambda: _repeated(4, rng, 3000 if tier == "quick" else 30000), _nt_cons, partrun.init, aux=aux))
     if tier == "quick":
